@@ -1,7 +1,7 @@
 """C10 — decoding untrusted bytes never panics and never yields ill-formed strings."""
 import struct
 from .. import gen
-from . import common
+from . import common, sizes
 from .C02 import TextGen, python_judge, NEG0
 
 SPEC_THEOREM = 'Props/C10: parse_jsonb/from_slice never Panic; decoded strings are UTF-8; proper prefixes are rejected; valid text falls back'
@@ -77,6 +77,51 @@ def generate(ctx):
                 for d in (1, 2, 3, -1, -2, -3):
                     if 0 <= l1 + d and 0 <= l2 - d:
                         add(e[:off] + struct.pack('>II', (w1 & 0xF0000000) | (l1 + d), (w2 & 0xF0000000) | (l2 - d)) + e[off + 8:], 'boundary-shift')
+    # the same faults on BIG buffers (300 bytes .. 64 KiB: strings / keys of 256 .. 65536 bytes, 257 and 1000 members; sizes.py, second
+    # review H2) at SAMPLED offsets: around every entry word, around the byte positions 255 / 256 / 65535 / 65536, around the start and
+    # the end of the long payload, and the end of the buffer
+    want = ('str256-elem', 'str257-value', 'key256-last', 'key4096-first', 'mbstr257-elem', 'mbkey256', 'str4096-elem', 'str65535-elem',
+            'str65536-value', 'key65536-last', 'arr257-num', 'arr256-str', 'obj256', 'obj257', 'arr1000-mixed', 'obj1000')
+    for lab, v in sizes.string_docs() + sizes.container_docs():
+        if lab not in want:
+            continue
+        e = gen.enc(v)
+        n = len(e)
+        add(e, 'valid')
+        huge = n > 5000            # the model decoder needs 0.1 .. 0.4 s per buffer of that size: fewer offsets there
+        offs = set(range(0, min(n, 20 if huge else 40))) | set(range(max(0, n - (6 if huge else 12)), n))
+        for c in (255, 256, 257, 4095, 4096, 65535, 65536, n // 2):
+            offs |= set(range(max(0, c - (1 if huge else 2)), min(n, c + (2 if huge else 3))))
+        offs |= set(r.sample(range(n), min(n, 10 if huge else 40)))
+        ctx.count('big_buffers', lab)
+        for i in sorted(offs):
+            h = gen.hexarg(e[:i])
+            ctx.prefix_ids.append((ctx.add('parse_jsonb %s' % h, kind='prefix').id, ctx.add('from_slice %s' % h, kind='prefix').id, v, i))
+            add(e[:i] + bytes([e[i] ^ (1 << r.randrange(8))]) + e[i + 1:], 'bitflip')
+            add(e[:i] + bytes([r.choice(SUBST)]) + e[i + 1:], 'subst')
+            if i % 3 == 0:
+                add(e[:i] + e[i + 1:], 'delete')
+                add(e[:i] + bytes([r.choice(SUBST)]) + e[i:], 'insert')
+        # entry words: length off by one / by 256 / by 65536 (a dropped or doubled length byte), the boundary with the neighbour moved
+        k = len(v[1]) if v[0] == 'a' else 2 * len(v[1])
+        for j in sorted(set(list(range(min(k, 6))) + list(range(max(0, k - 3), k)) + [k // 2])):
+            off = 4 + 4 * j
+            w = struct.unpack('>I', e[off:off + 4])[0]
+            ln = w & 0x0FFFFFFF
+            for l2 in (ln + 1, max(ln - 1, 0), ln + 256, max(ln - 256, 0), ln + 65536, ln & 0xFF, ln & 0xFFFF, ln >> 8):
+                if l2 != ln:
+                    add(e[:off] + struct.pack('>I', (w & 0xF0000000) | l2) + e[off + 4:], 'entry-len')
+            if j + 1 < k:
+                w2 = struct.unpack('>I', e[off + 4:off + 8])[0]
+                for d in (1, -1, 256, -256):
+                    l1, l2 = ln + d, (w2 & 0x0FFFFFFF) - d
+                    if l1 >= 0 and l2 >= 0:
+                        add(e[:off] + struct.pack('>II', (w & 0xF0000000) | l1, (w2 & 0xF0000000) | l2) + e[off + 8:], 'boundary-shift')
+        h0 = struct.unpack('>I', e[:4])[0]
+        cnt = h0 & 0x1FFFFFFF
+        for c2 in (cnt + 1, cnt - 1, cnt & 0xFF, cnt + 256, max(cnt - 256, 0), cnt >> 8):
+            if c2 != cnt and c2 >= 0:
+                add(struct.pack('>I', (h0 & 0xE0000000) | c2) + e[4:], 'count')
     # known panics of the code before the fixes
     for h in ['2000000020000000', '20000000200000026000', '4000000120000001' + '00000000' + '50', '2000000010000002fffe', '4000000110000002' + '00000000' + 'fffe',
               '400000011000000120000001' + '61' + '', '3132333435363738', '2d31323334353637', '2261626330303030' + '22']:
